@@ -93,11 +93,15 @@ def make_complex(rng, nA=None, nB=None, chains=('A', 'B'), hydrogens=None, numbe
     nB = nB if nB is not None else rng.randint(3, 12)
     hydrogens = rng.random() < 0.4 if hydrogens is None else hydrogens
     gap = gap if gap is not None else rng.choice([3.5, 4.5, 6.0, 8.0, 11.0])
-    numbering = numbering or rng.choice(['plain', 'negative', 'gappy', 'offset', 'wide'])
+    numbering = numbering or rng.choice(['plain', 'negative', 'gappy', 'offset', 'wide', 'continuous'])
     residues = []
     for ci, (chain, n) in enumerate(zip(chains, (nA, nB))):
         if numbering == 'plain':
             nums = list(range(1, n + 1))
+        elif numbering == 'continuous':
+            # one numbering through both chains (A 1..nA, B nA+1..): the last residue of A and the first of B are consecutive numbers
+            # (round-8 seed C09-r8m1: zone files compacted to ranges that forget to check the chain)
+            nums = list(range(1, n + 1)) if ci == 0 else list(range(nA + 1, nA + n + 1))
         elif numbering == 'negative':
             nums = list(range(-(n // 2) - 1, -(n // 2) - 1 + n))
         elif numbering == 'offset':
